@@ -60,6 +60,7 @@ class Color(enum.IntEnum):
 
 
 ACCS = {
+    'isum_tn': (lambda a, x: a + x, lambda a, x: a + x, lambda: 0, False),
     # ints beyond 2**53 (nanosecond timestamps, 64-bit ids): exact in an int, not in a double
     'big_isum': (lambda a, x: a + x, lambda a, x: a + x, lambda: 2 ** 53 + 1, False),
     # a seed that is an instance of an int SUBCLASS: the running value must stay a Color
@@ -78,12 +79,16 @@ ACCS = {
 }
 TERMS = {
     'big_isum': lambda a: a - 1, 'enum': lambda a: a.name,
+    # a terminator whose legitimate result is None for some keys ('no reading above the threshold')
+    'isum_tn': lambda a: None if a % 2 == 0 else a,
     'isum': lambda a: a * 10 + 1, 'fsum': lambda a: a + 0.25, 'or': lambda a: not a, 'minmax': lambda a: (a[1], a[0]),
     'maybe_none': lambda a: ['T'] if a is None else a + ['T'],
     'none_min': lambda a: -1 if a is None else a + 100, 'append': lambda a: a + ['T'], 'dict': lambda a: dict(list(a.items()) + [('T', 1)]),
     'nested': lambda a: [a[0] + ['T'], a[1]],
 }
-FACTORY_ONLY = set()
+# accumulators whose terminator leaves the seed's type (a None result): the state must be an object state, which scan declares
+# when the seed is given as a factory (a typed array cannot hold the terminator's result -- stated precondition)
+FACTORY_ONLY = {'isum_tn'}
 
 
 def rec_tail(log, objs):
@@ -136,8 +141,10 @@ def fold_case(draw):
 def make_scan(case, term_log):
     real, pure, seedf, mutable = ACCS[case['acc']]
     seed_obj = seedf()
-    if case['seed_as'] == 'value':
+    if case['seed_as'] == 'value' and case['acc'] not in FACTORY_ONLY:
         seed = seed_obj
+    elif case['seed_as'] == 'value':
+        seed = seedf
     elif case['seed_as'] == 'partial':
         import functools
         seed = functools.partial(lambda f: f(), seedf)         # a callable that is neither a function nor a class
